@@ -86,10 +86,18 @@ pub fn drive_c15(args: &[String]) {
         }
         sink.emit(e);
     }
-    let mut list: Vec<(PartialDSym, bool)> = corpus3d().into_iter().map(|s| (s, true)).collect();
-    for n in 1..=max3 { for s in domain3d(n) { if sample >= 1000 || rng.gen_range(0..1000) < sample { list.push((s, false)); } } }
-    for (s, is_corpus) in &list {
+    let mut list: Vec<(PartialDSym, bool, Option<Value>)> = corpus3d().into_iter().map(|s| (s, true, None)).collect();
+    // prisms over euclidean 2-D symbols (built by the specification) and their 2-sheeted covers: euclidean by construction
+    if let Some(p) = arg(args, "--prisms") {
+        let mut fam = prism_family(&p, 2);
+        let cap = arg_usize(args, "--prism-cap", 400);
+        if fam.len() > cap { fam.shuffle(&mut rng); fam.truncate(cap); }
+        for (b, s) in fam { list.push((s, true, Some(b))); }
+    }
+    for n in 1..=max3 { for s in domain3d(n) { if sample >= 1000 || rng.gen_range(0..1000) < sample { list.push((s, false, None)); } } }
+    for (s, is_corpus, prism_of) in &list {
         let mut e = json!({"ev": "pseudo_toroidal", "sym": dsym_json(s), "corpus": is_corpus});
+        if let Some(b) = prism_of { e["prism_of"] = b.clone(); }
         pending(&e);
         match ptc_record(s) {
             Ok((r, _)) => { for (k, v) in r.as_object().unwrap() { e[k] = v.clone(); } }
@@ -272,11 +280,19 @@ pub fn drive_c17(args: &[String]) {
     let mut sink = Sink::create(&out);
     let mut rng = rng(17);
     // work list: (symbol, is corpus, depth in the cover tree)
-    let mut list: std::collections::VecDeque<(PartialDSym, bool, usize)> = corpus3d().into_iter().map(|s| (s, true, 0)).collect();
-    for n in 1..=max3 { for s in domain3d(n) { list.push_back((s, false, 0)); } }
+    let mut list: std::collections::VecDeque<(PartialDSym, bool, usize, Option<Value>)> = corpus3d().into_iter().map(|s| (s, true, 0, None)).collect();
+    if let Some(p) = arg(args, "--prisms") {
+        let mut fam = prism_family(&p, 2);
+        let cap = arg_usize(args, "--prism-cap", 150);
+        if fam.len() > cap { fam.shuffle(&mut rng); fam.truncate(cap); }
+        // deep in the tree already: the cover tree of these is not followed further
+        for (b, s) in fam { list.push_back((s, true, usize::MAX / 2, Some(b))); }
+    }
+    for n in 1..=max3 { for s in domain3d(n) { list.push_back((s, false, 0, None)); } }
     let mut seen: std::collections::HashSet<String> = Default::default();
-    while let Some((s, is_corpus, depth)) = list.pop_front() {
-        let mut e = json!({"ev": "euclidicity", "sym": dsym_json(&s), "corpus": is_corpus, "depth": depth});
+    while let Some((s, is_corpus, depth, prism_of)) = list.pop_front() {
+        let mut e = json!({"ev": "euclidicity", "sym": dsym_json(&s), "corpus": is_corpus, "depth": depth.min(99)});
+        if let Some(b) = &prism_of { e["prism_of"] = b.clone(); }
         pending(&e);
         let v = verdict(&s);
         // symbols rejected outright by the invariant filter are kept as a seeded sample only
@@ -313,7 +329,7 @@ pub fn drive_c17(args: &[String]) {
                 let cv = variant("cover", &c);
                 if is_yes && depth < cover_depth && c.size() <= 8 && cv.as_deref() == Some("yes") {
                     let key = canonical(&c).to_string();
-                    if seen.insert(key) { list.push_back((c, false, depth + 1)); }
+                    if seen.insert(key) { list.push_back((c, false, depth + 1, None)); }
                 }
             }
         }
